@@ -38,6 +38,21 @@ theorem call_same_brand {s : Sig} (hok : s.ok = true) (hc : s.callable = true) (
   obtain ⟨l, hl, rfl⟩ := List.mem_map.mp hb
   exact ⟨l, Sig.out_mem_in hok hc hl, rfl⟩
 
+/-- The same for everything a call hands out, references into the arena included. -/
+theorem Sig.outHeld_mem_in {s : Sig} (hok : s.ok = true) (hc : s.callable = true) {l : String}
+    (hl : l ∈ s.outHeld) : l ∈ s.inBrands := by
+  rcases List.mem_append.mp hl with h | h
+  · exact Sig.out_mem_in hok hc h
+  · have hb : l ∈ s.brands := by simpa using (List.mem_filter.mp h).2
+    rcases List.mem_append.mp hb with h' | h'
+    · exact h'
+    · exact Sig.out_mem_in hok hc h'
+
+theorem call_held_same_brand {s : Sig} (hok : s.ok = true) (hc : s.callable = true) (σ : Subst)
+    {b : Brand} (hb : b ∈ s.outHeld.map σ) : ∃ l ∈ s.inBrands, σ l = b := by
+  obtain ⟨l, hl, rfl⟩ := List.mem_map.mp hb
+  exact ⟨l, Sig.outHeld_mem_in hok hc hl, rfl⟩
+
 /-- A call involves one arena only: all branded inputs and all branded results have the same brand. -/
 theorem call_single_arena {s : Sig} (hok : s.ok = true) (hc : s.callable = true) (σ : Subst)
     {b b' : Brand} (hb : b ∈ s.brands.map σ) (hb' : b' ∈ s.brands.map σ) : b = b' := by
@@ -90,7 +105,7 @@ theorem step_inv {T : Table} (hok : T.ok = true) {st st' : State} (hi : Inv st)
     refine ⟨?_, hi.active_opened, hi.nodup⟩
     intro x hx
     rcases List.mem_append.mp hx with h | h
-    · obtain ⟨l, hl, rfl⟩ := call_same_brand (Table.sig_ok hok mem) callable σ h
+    · obtain ⟨l, hl, rfl⟩ := call_held_same_brand (Table.sig_ok hok mem) callable σ h
       exact hi.held_active _ (inputs l hl)
     · exact hi.held_active x h
   | forget held' sub =>
@@ -162,16 +177,21 @@ In every reachable state:
    and in **every** later state of the program the brand is neither held nor active again;
 3. *different arena*: every call the program can make now involves one brand only – all branded
    inputs and all branded results have the same brand – and it is the brand of an executing
-   callback. -/
+   callback;
+4. *pointers and references alike*: everything such a call hands out that belongs to an arena –
+   `Gc` / `GcWeak` / context / root-set values and the references `&'gc T`, `&'gc Write<T>`,
+   `Ref<'gc, T>` (`Sig.outHeld`) – has the brand of a held value the call consumed. -/
 theorem no_escape_of_table_ok {T : Table} (hok : T.ok = true) {st : State} (hr : Reachable T st) :
     (∀ b ∈ st.held, b ∈ st.active ∧ b ∈ st.opened) ∧
     (∀ (b : Brand) (rest : List Brand), st.active = b :: rest →
       ∀ st', Steps T { st with active := rest, held := st.held.filter (· != b) } st' →
         b ∉ st'.held ∧ b ∉ st'.active) ∧
     (∀ (s : Sig) (σ : Subst), s ∈ T.sigs → s.callable = true → (∀ l ∈ s.inBrands, σ l ∈ st.held) →
-      ∀ b ∈ s.brands.map σ, b ∈ st.active ∧ ∀ b' ∈ s.brands.map σ, b' = b) := by
+      ∀ b ∈ s.brands.map σ, b ∈ st.active ∧ ∀ b' ∈ s.brands.map σ, b' = b) ∧
+    (∀ (s : Sig) (σ : Subst), s ∈ T.sigs → s.callable = true → (∀ l ∈ s.inBrands, σ l ∈ st.held) →
+      ∀ b ∈ s.outHeld.map σ, ∃ l ∈ s.inBrands, σ l = b ∧ b ∈ st.held) := by
   have hi := reachable_inv hok hr
-  refine ⟨fun b hb => ⟨hi.held_active b hb, hi.active_opened b (hi.held_active b hb)⟩, ?_, ?_⟩
+  refine ⟨fun b hb => ⟨hi.held_active b hb, hi.active_opened b (hi.held_active b hb)⟩, ?_, ?_, ?_⟩
   · intro b rest top st' hs
     have hex : Step T st { st with active := rest, held := st.held.filter (· != b) } :=
       .exit st b rest top
@@ -188,5 +208,8 @@ theorem no_escape_of_table_ok {T : Table} (hok : T.ok = true) {st : State} (hr :
       · exact hi.held_active _ (inputs l hin)
       · exact hi.held_active _ (inputs l (Sig.out_mem_in hs hc hout))
     exact ⟨hact, fun b' hb' => call_single_arena hs hc σ hb' hb⟩
+  · intro s σ mem hc inputs b hb
+    obtain ⟨l, hl, rfl⟩ := call_held_same_brand (Table.sig_ok hok mem) hc σ hb
+    exact ⟨l, hl, rfl, inputs l hl⟩
 
 end GcArena.BrandFlow
